@@ -449,7 +449,7 @@ def local_decl(fn, pred):
     """declaration entries (dict with d,n,t,init) of locals whose DeclStmt entry satisfies pred"""
     out = []
     for n in fn.nodes:
-        if n["k"] == "DeclStmt":
+        if n["k"] == "DeclStmt" and not n.get("inl_param"):      # (not the parameter temporaries lib/inline.py makes)
             for dd in n["decls"]:
                 if pred(dd):
                     out.append((n["i"], dd))
